@@ -665,6 +665,29 @@ fn duplication_invariance() -> Option<String> {
     None
 }
 
+/// C06: sol(t) succeeds at every reported sample, in particular at the last one (xend), and reproduces it
+fn sol_at_every_sample() -> Option<String> {
+    struct Osc;
+    impl IVP for Osc { fn ode(&self, _t: f64, y: &[f64], d: &mut [f64]) { d[0] = y[1]; d[1] = -4.0 * y[0] - 0.1 * y[1]; } }
+    let mut seed = 777u64;
+    let mut rnd = move || { seed = seed.wrapping_mul(6364136223846793005).wrapping_add(1442695040888963407); ((seed >> 11) as f64) / ((1u64 << 53) as f64) };
+    for trial in 0..300 {
+        let x0 = -2.0 + 4.0 * rnd(); let span = 0.2 + 8.0 * rnd(); let xe = if rnd() < 0.5 { x0 - span } else { x0 + span };
+        let m = [Method::RK4, Method::RK23, Method::DOPRI5, Method::DOP853, Method::RADAU, Method::BDF][trial % 6].clone();
+        let rt = 10f64.powf(-3.0 - 6.0 * rnd());
+        if let Ok(s) = solve_ivp(&Osc, x0, xe, &[1.0, 0.0], Options::builder().method(m.clone()).rtol(rt).atol(rt * 1e-3).dense_output(true).build()) {
+            if s.status != Status::Success { continue; }
+            for (i, t) in s.t.iter().enumerate() {
+                match s.sol(*t) {
+                    Err(e) => return Some(format!("{:?} on [{:e}, {:e}], rtol {:.1e}: sol(t) at the reported sample {} of {} (t = {:e}) fails with {:?}; sol_span = {:?}", m, x0, xe, rt, i, s.t.len() - 1, t, e, s.sol_span())),
+                    Ok(v) => { if (v[0] - s.y[i][0]).abs() > 1e-9 * (1.0 + s.y[i][0].abs()) { return Some(format!("{:?} on [{:e}, {:e}]: sol({:e}) = {:e} but the stored sample is {:e}", m, x0, xe, t, v[0], s.y[i][0])); } }
+                }
+            }
+        }
+    }
+    None
+}
+
 fn main() {
     let which = std::env::args().nth(1).unwrap_or_default();
     let r = match which.as_str() {
@@ -675,6 +698,7 @@ fn main() {
         "default_mass" => default_mass(),
         "matrix_dense_model" => matrix_dense_model(),
         "lu_small" => lu_small(),
+        "sol_at_every_sample" => sol_at_every_sample(),
         "duplication_invariance" => duplication_invariance(),
         "modified_solution_doubling" => modified_solution_doubling(),
         "event_function_scale" => event_function_scale(),
